@@ -496,6 +496,9 @@ static int do_op(int which, inst_t *I, const char *op, int *perr) {
         break; }
     case T_VEC: { qvector_t *v = I->c;
         if (!strcmp(op, "addat")) { void *d = cbuf(b2, n2); ENTER; bool r = qvector_addat(v, idx, d); LEAVE; cfree(d, n2); BOOLRES(r); }
+        else if (!strcmp(op, "addself")) { void *d = qvector_getat(v, atoi(a2), false);      /* the vector's own element, handed in by pointer */
+            if (!d) { fprintf(rf, "noself"); *perr = 0; }
+            else { ENTER; bool r = qvector_addat(v, idx, d); LEAVE; BOOLRES(r); } }
         else if (!strcmp(op, "addlast")) { void *d = cbuf(b1, n1); ENTER; bool r = qvector_addlast(v, d); LEAVE; cfree(d, n1); BOOLRES(r); }
         else if (!strcmp(op, "addfirst")) { void *d = cbuf(b1, n1); ENTER; bool r = qvector_addfirst(v, d); LEAVE; cfree(d, n1); BOOLRES(r); }
         else if (!strcmp(op, "setat")) { void *d = cbuf(b2, n2); ENTER; bool r = qvector_setat(v, idx, d); LEAVE; cfree(d, n2); BOOLRES(r); }
